@@ -177,8 +177,10 @@ class C04(Prop):
                     vs.append("b:" + hexs(raw))
             exp.append(f"{chan},{dt},{vdim},{mlen},[{';'.join(vs)}],[{';'.join(str(int.from_bytes(m, 'little')) for m in metas)}]")
         want = f"ok {payload[0]} " + ("|".join(exp) or "-")
-        if out != want:
-            return {"key": "decode-values", "what": "decoded samples differ from the values on the wire: " + sg.first_difference(want, out),
+        # the data-KIND code of a sample (NUM / CHAR / COMPLEX / NONE, an nxslib-internal tag) is not in the property:
+        # channel id, values, metadata (and the echoed vdim / mlen of the layout) are compared
+        if sg.drop_kind(out) != sg.drop_kind(want):
+            return {"key": "decode-values", "what": "decoded samples differ from the values on the wire: " + sg.first_difference(want, out, kind=False),
                     "expected": want[:400], "observed": out[:400]}
         return None
 
